@@ -297,6 +297,9 @@ func (ex *Exec) callFunc(st *State, fn *types.Func, recv *Val, args []*Val, call
 		return vs
 	}
 	// 2. contracts (in-repo or assumed)
+	if c, ok := ex.eng.cs.Contracts[ref]; ok && c.Getter {
+		return ex.applyGetter(st, c, fn, recv, args, sc)
+	}
 	if c, ok := ex.eng.cs.Contracts[ref]; ok && !(ex.fn != nil && c.Inline) {
 		return ex.applyContract(st, c, fn, recv, args, pos, sc, resT)
 	}
@@ -610,6 +613,65 @@ func (ex *Exec) applyContract(st *State, c *Contract, fn *types.Func, recv *Val,
 		st.assume(g.S)
 	}
 	return results
+}
+
+// applyGetter: a pure getter returns a deterministic function of its receiver,
+// of the receiver's ghost version (bumped by reloads) and of its scalar arguments.
+func (ex *Exec) applyGetter(st *State, c *Contract, fn *types.Func, recv *Val, args []*Val, sc *SpecCtx) []*Val {
+	ex.usedContracts[c.Func]++
+	ex.assumedUsed[c.Func]++
+	s := st
+	if sc != nil && sc.inOld {
+		s = sc.old
+	}
+	rs := "0"
+	if recv != nil && recv.Sh != nil && recv.Sh.IsLeaf() {
+		rs = recv.S
+	}
+	verArr := ex.heapArr(s, heapKey("G$", "getterVersion"), "Int")
+	ver := "(select " + verArr + " " + rs + ")"
+	argSorts := []string{"Int", "Int"}
+	argTerms := []string{rs, ver}
+	for _, a := range args {
+		if a != nil && a.Sh != nil && a.Sh.IsLeaf() {
+			argSorts = append(argSorts, a.Sh.Leaf)
+			argTerms = append(argTerms, a.S)
+		}
+	}
+	var out []*Val
+	for i, rt := range resultTypes(fn) {
+		sh := ex.eng.sh.shapeOf(rt)
+		var build func(sh *Shape, path string) *Val
+		build = func(sh *Shape, path string) *Val {
+			if sh.IsLeaf() {
+				fname := "gt_" + smtName(c.Func) + fmt.Sprintf("_r%d_", i) + smtName(path)
+				ex.eng.smt.declFun(fname, "(declare-fun "+fname+" ("+strings.Join(argSorts, " ")+") "+sh.Leaf+")")
+				v := &Val{Sh: sh, T: sh.T, S: "(" + fname + " " + strings.Join(argTerms, " ") + ")"}
+				return ex.loaded(v)
+			}
+			o := &Val{Sh: sh, T: sh.T}
+			for k, ks := range sh.Kids {
+				o.Kids = append(o.Kids, build(ks, path+"."+sh.Names[k]))
+			}
+			return o
+		}
+		v := build(sh, "")
+		v.T = rt
+		out = append(out, v)
+	}
+	// ensures clauses may constrain the result further
+	if len(c.Clauses) > 0 {
+		csc := ex.calleeCtx(c, fn, recv, args, s)
+		bindResults(csc, fn, out)
+		ex.specDepth++
+		for _, cl := range c.Clauses {
+			if cl.Kind == "ensures" && cl.Expr != nil {
+				st.assume(ex.eval(s, cl.Expr, csc).S)
+			}
+		}
+		ex.specDepth--
+	}
+	return out
 }
 
 func (ex *Exec) callOrd(ref string, pos token.Pos) int {
